@@ -7,9 +7,19 @@ Tie: T + X.
      Resources/Lemmas.v proves the properties of the generated definitions.
   X  * float-vs-exact: the real helpers against the generated definitions, EXHAUSTIVELY for adjust_cores_for_packability over
        [-5, 2^21] (checked on the implementation side against the same integer formula, and by vm_compute on a grid), at all
-       packable boundaries for the memory adjustment, at GiB boundaries for storage;
+       packable boundaries for the memory adjustment; for storage (round_storage_bytes_to_gib and
+       requested_storage_bytes_to_actual_storage_gib of both clouds) at byte counts one byte / KiB / MiB either side of GiB
+       boundaries, KiB- and MiB-multiples that are not GiB-multiples, decimal sizes, the clouds' maxima, the float-exact ceiling 2^53-1;
+     * storage request STRINGS of the job schema (10.5Gi, 20G, 10241Mi, ...): real parse_storage_in_bytes + real conversion against
+       the model fed with the exactly re-read byte count;
      * InstanceCollectionConfigs.select_inst_coll (hand model Resources/Select.v) against the real class built from generated
-       pool configurations (both clouds, labels, preemptibility, worker types, job-private).
+       pool configurations (both clouds, labels, preemptibility, worker types, job-private; storage as bytes or as strings).
+Oracle (implementation only, exact Python ints / Fractions, judged by output values): least packable count (exhaustive); storage swept
+     around EVERY GiB boundary of a dense range of GiB counts (_storage_sweep): granted GiB * 2^30 >= requested bytes
+     [storage-rounding-under / storage-under / storage-string-under], least such whole number given the 10 GiB minimum
+     [storage-rounding-not-least / storage-not-least / storage-below-minimum], refused only above the cloud maximum
+     [storage-rejected / storage-over-max], accepted by the worker and given at least that many bytes of disk quota
+     [storage-grant-invalid / storage-quota-under]; memory adjustment; every answer of select_inst_coll.
 """
 import ast
 
@@ -29,15 +39,25 @@ META = dict(
               'translator) and about a hand model of select_inst_coll; the float-vs-exact step validated exhaustively over the finite core-count '
               'domain and at all packable / GiB boundaries; select_inst_coll tied by differential execution of the real class',
     level_text='Machine-checked theorems (Coq 8.16, closed under the global context): adjust_cores_for_packability returns the LEAST packable core '
-               'count (250 mcpu * 2^k) covering the request, for all integers; what PoolConfig.convert_requests_to_resources (regenerated from '
+               'count (250 mcpu * 2^k) covering the request, for all integers; round_storage_bytes_to_gib (regenerated from source) returns the '
+               'LEAST whole number of GiB covering the byte count, for all byte counts >= 0 (C12_storage_rounding_least), and '
+               'requested_storage_bytes_to_actual_storage_gib (both clouds) grants the least whole number of GiB that covers the request and '
+               'the 10 GiB minimum disk, never above the cloud maximum, and refuses only above that maximum (C12_storage_grant_least); what '
+               'PoolConfig.convert_requests_to_resources (regenerated from '
                'source, both clouds) grants is >= the requested cores, memory and storage and fits on one worker (cores <= worker cores, memory <= '
                'worker cores x memory per core), for all requests and all pools with positive memory per core; a pool refuses only if the disk is '
                'beyond the cloud maximum or NO packable grant covering cores and memory fits on its workers; for all pool lists, select_inst_coll '
                '(hand model) places a request only in a collection matching cloud / preemptibility / label (and named worker type; job-private '
                'collection of the same cloud with exactly the machine type\'s cores and memory), and rejects only if no matching collection could '
-               'satisfy it; the pool chosen without a named worker type is a cheapest candidate.',
+               'satisfy it; the pool chosen without a named worker type is a cheapest candidate. Checked by the run on the real code, not '
+               'proved: the storage helpers around every GiB boundary of a dense range of GiB counts (one byte / KiB / MiB either side, '
+               'KiB- and MiB-multiples that are not GiB-multiples) and storage request strings (fractional binary sizes such as 10.5Gi, decimal '
+               'sizes such as 20G / 10738M, byte counts) through the real parse_storage_in_bytes -> requested_storage_bytes_to_actual_storage_gib '
+               '-> is_valid_storage_request -> storage_gib_to_bytes, against the request re-read as an exact rational: granted GiB * 2^30 >= '
+               'requested bytes and minimality, in exact integers.',
     level_note='Trusted: Coq kernel; translator harness/translate/c12_arith.py (floats -> exact rationals); the hand model of the three select_* '
-               'loops (tied by execution, not proved equal); request strings are taken as already parsed (parse_* is property C25). The check '
+               'loops (tied by execution, not proved equal); the theorems take requests as already parsed (parse_* is property C25) — storage '
+               'strings are only driven through the real parser by the run and compared with an independent exact reading. The check '
                'targets the tree with fixes/C12.diff applied: pools with a non-power-of-two worker core count make select_inst_coll raise.',
     partial=False,
 )
@@ -47,7 +67,9 @@ TRUSTED = ['translator harness/translate/c12_arith.py (Python floats read as exa
            'loader; ProductVersions and resource rates replaced by deterministic tables (they only influence which candidate is cheapest)']
 ASSUMPTIONS = ['float exactness: on the inputs that occur, float evaluation of the helpers equals their exact rational meaning — validated '
                'EXHAUSTIVELY for adjust_cores_for_packability over [-5, 2^21] mcpu, and at every packable / GiB / cloud-maximum boundary for the '
-               'memory and storage helpers on every run; not proved for binary64',
+               'memory and storage helpers on every run; not proved for binary64. For storage the float step is exact below 2^53 bytes '
+               '(int -> binary64 and division by 2^30 are exact there); both callers of round_storage_bytes_to_gib refuse anything above the '
+               'cloud maximum (2^46 bytes) first, so the run sweeps byte counts up to 2^53 - 1 only',
                'requests arrive parsed: cores in mcpu, memory and storage in bytes (non-negative); symbolic memory (lowmem/standard/highmem) has been '
                'turned into a worker type by the front end',
                'pool configurations are those the configuration form accepts (worker cores from possible_cores_from_worker_type, positive memory per core)']
@@ -166,6 +188,66 @@ def _sweep(ctx):
     return ctx.c12_sweep
 
 
+KIB = 1 << 10
+FLOAT_EXACT = 1 << 53        # below this every int is a binary64 and division by 2^30 is exact; both callers of
+#                              round_storage_bytes_to_gib have refused anything above the cloud maximum (2^46 bytes) before
+# offsets around a GiB boundary k * 2^30: one byte / one KiB / one MiB either side, KiB- and MiB-multiples that are not GiB-multiples
+GIB_OFFSETS = [-MIB, -KIB, -1, 0, 1, KIB - 1, KIB, KIB + 1, MIB, MIB + KIB, 3 * MIB + 512 * KIB, GIB // 2, GIB - MIB, GIB - KIB]
+SUFFIX = {'': 1, 'K': 1000, 'Ki': 1024, 'M': 1000 ** 2, 'Mi': 1024 ** 2, 'G': 1000 ** 3, 'Gi': 1024 ** 3, 'T': 1000 ** 4, 'Ti': 1024 ** 4,
+          'P': 1000 ** 5, 'Pi': 1024 ** 5}
+
+
+def _exact_request(s):
+    """independent exact reading of a storage string of the job schema ([+]number[K|M|G|T|P[i]][B]): the requested bytes as a Fraction"""
+    from fractions import Fraction
+    x = s[1:] if s.startswith('+') else s
+    if x.endswith('B'):
+        x = x[:-1]
+    i = len(x)
+    while i > 0 and not (x[i - 1].isdigit() or x[i - 1] == '.'):
+        i -= 1
+    num, suf = x[:i], x[i:]
+    if suf not in SUFFIX or not num or num.count('.') > 1 or num.endswith('.'):
+        raise ValueError('not a storage string of the job schema: ' + s)
+    return Fraction(num) * SUFFIX[suf]
+
+
+def _ceil(q):
+    return -((-q.numerator) // q.denominator) if hasattr(q, 'numerator') else q
+
+
+def _storage_ks(t):
+    ks = {0, 1, 2, 9, 10, 11, 12, 18, 19, 20, 93, 99, 100, 375, 376, 931, 1023, 1024, 1536, 9999}
+    for mx in t['max_storage_gib'].values():
+        ks |= {mx - 1, mx, mx + 1}
+    return sorted(ks)
+
+
+def _storage_strings(ctx, n_random):
+    """request strings as users write them: whole and fractional binary sizes, decimal sizes, plain byte counts, +/B decorations"""
+    rng = ctx.rng
+    out = ['0', '1', '0Gi', '0.5Gi', '1Gi', '5Gi', '10Gi', '10737418240', '10737418241', '10737419264', '11274289152', '12000000000',
+           '10241Mi', '10500Mi', '10752Mi', '384000Mi', '512Mi', '10485761Ki', '11010048Ki', '10485760K', '10485761K',
+           '0.5Ti', '1Ti', '1.5Ti', '31.5Ti', '32Ti', '32.0001Ti', '63.5Ti', '64Ti', '64.0001Ti', '65Ti', '1T', '2T', '35T', '35.2T', '70T', '71T',
+           '0.01P', '0.03Pi', '1P', '10.5G', '0.5G', '10000M', '10738M', '11000M', '20000M', '20480M', '+10.5GiB', '20GB', '+100G', '.5Ti', '10.5GiB']
+    for k in (9, 10, 11, 20, 99, 375, 1023):
+        for frac in ('', '.5', '.25', '.125', '.75', '.001', '.0000001', '.999', '.0009765625'):
+            out.append(f'{k}{frac}Gi')
+    out += [f'{k}G' for k in list(range(9, 31)) + [100, 101, 375, 1000, 1001]]
+    for _ in range(n_random):
+        suf = rng.choice(['Gi', 'Gi', 'G', 'G', 'Mi', 'M', 'Ki', 'K', 'Ti', 'T', ''])
+        scale = {'Gi': 1, 'G': 1, 'Mi': 1024, 'M': 1000, 'Ki': 1024 ** 2, 'K': 10 ** 6, 'Ti': 0, 'T': 0, '': 10 ** 9}[suf]
+        whole = rng.choice([rng.randint(0, 70), rng.randint(0, 500)]) * scale if scale else rng.randint(0, 70)
+        frac = rng.choice(['', '', '.5', '.25', f'.{rng.randint(0, 999):03d}', f'.{rng.randint(1, 10 ** 9)}']) if suf else ''
+        out.append(f'{whole}{frac}{suf}')
+    seen, res = set(), []
+    for s in out:
+        if s not in seen:
+            seen.add(s)
+            res.append(s)
+    return res
+
+
 def _helper_calls(ctx, n_random):
     t = _get_tables(ctx)
     rng = ctx.rng
@@ -174,15 +256,24 @@ def _helper_calls(ctx, n_random):
         for d in (-2, -1, 0, 1, 2):
             calls.append(['pack', [250 * 2 ** k + d]])
     calls += [['pack', [c]] for c in (-1000, -1, 0, 1, 2, 249, 333, 334, 999, 1001, 2 ** 21, 2 ** 21 + 1, 10 ** 7, 10 ** 9)]
+    # storage: every boundary class around a selection of GiB counts, decimal sizes, the float-exact ceiling
+    bounds = sorted({k * GIB + off for k in _storage_ks(t) for off in GIB_OFFSETS if k * GIB + off >= 0}
+                    | {k * 10 ** e for k in (1, 11, 12, 15, 20, 100, 10738, 20000) for e in (3, 6, 9, 12)}
+                    | {FLOAT_EXACT - GIB, FLOAT_EXACT - KIB, FLOAT_EXACT - 1})
+    calls += [['round_gib', [b]] for b in bounds]
     for cloud in ('gcp', 'azure'):
         mx = t['max_storage_gib'][cloud]
         pts = {0, 1, GIB - 1, GIB, GIB + 1, 10 * GIB - 1, 10 * GIB, 10 * GIB + 1, 11 * GIB, 375 * GIB + 5, mx * GIB - 1, mx * GIB, mx * GIB + 1, 2 ** 53 + 1}
+        pts |= set(bounds)
         for _ in range(n_random // 8):
             g = rng.choice([rng.randint(0, 64), rng.randint(0, mx + 5)])
-            pts.add(g * GIB + rng.choice([-1, 0, 1, rng.randint(0, GIB - 1)]))
+            pts.add(g * GIB + rng.choice([-1, 0, 1, rng.randint(0, GIB - 1), KIB * rng.randint(1, MIB - 1), MIB * rng.randint(1, KIB - 1)]))
         for b in sorted(p for p in pts if p >= 0):
             for allow in (True, False):
                 calls.append(['storage_gib', [cloud, b, allow]])
+    for s in _storage_strings(ctx, n_random // 4):
+        for cloud in ('gcp', 'azure'):
+            calls.append(['storage_str', [cloud, s, rng.random() < 0.7]])
     for cloud, wt, mpc in t['mpc']:
         B = mpc * MIB
         wcs = next(c for cl, w, c in t['pool_cores'] if cl == cloud and w == wt)
@@ -216,6 +307,10 @@ def _helper_exprs(ctx, calls):
             ex.append(f'G.adjust_cores_for_packability {zlit(a[0])}')
         elif name == 'storage_gib':
             ex.append(f'G.requested_storage_bytes_to_actual_storage_gib_{a[0]} {zlit(a[1])} {"true" if a[2] else "false"}')
+        elif name == 'round_gib':
+            ex.append(f'G.round_storage_bytes_to_gib {zlit(a[0])}')
+        elif name == 'storage_str':      # the model takes the request in bytes: the string re-read exactly, rounded up to whole bytes
+            ex.append(f'G.requested_storage_bytes_to_actual_storage_gib_{a[0]} {zlit(_ceil(_exact_request(a[1])))} {"true" if a[2] else "false"}')
         elif name == 'adjust_mem':
             ex.append(f'G.{a[0]}_adjust_cores_for_memory_request {_mpc_of(t, a[0], a[1])} {zlit(a[2])} {zlit(a[3])}')
         elif name == 'mem_of':
@@ -265,7 +360,18 @@ def _scenarios(ctx, n_scen, n_req):
             cloud = main_cloud if rng.random() < 0.9 else ('azure' if main_cloud == 'gcp' else 'gcp')
             kind = rng.choice(['wt', 'cheap', 'cheap', 'mt'])
             r = dict(cloud=cloud, label=rng.choice(labels[:2]), preemptible=rng.random() < 0.7,
-                     storage=rng.choice([0, 0, rng.randint(0, 50) * GIB, rng.randint(0, 400 * GIB), t['max_storage_gib'][cloud] * GIB + rng.choice([0, 1]), 10 * GIB + 1]))
+                     storage=rng.choice([0, 0, rng.randint(0, 50) * GIB, rng.randint(0, 400 * GIB), t['max_storage_gib'][cloud] * GIB + rng.choice([0, 1]), 10 * GIB + 1,
+                                         rng.randint(0, 400) * GIB + rng.choice([-KIB, KIB, MIB, GIB // 2, KIB * rng.randint(1, MIB - 1)]),
+                                         rng.randint(1, 500) * 10 ** 9]))
+            r['storage'] = max(0, r['storage'])
+            if rng.random() < 0.35:
+                # the request as the job spec carries it: a string, read by the real parse_storage_in_bytes on the implementation side and
+                # re-read exactly here (r['storage'] = the requested bytes, rounded up to whole bytes)
+                s = rng.choice([f'{rng.randint(0, 400)}{rng.choice(["", ".5", ".25", ".125", ".75", ".001"])}Gi', f'{rng.randint(1, 500)}G',
+                                f'{rng.randint(1, 400000)}Mi', f'{rng.randint(1, 400000)}M', f'{rng.choice(["0.5", "1", "1.5", "2", "31.5", "33", "63.5", "64"])}Ti',
+                                f'{rng.randint(1, 70)}T', '10.5Gi', '20G'])
+                r['storage_str'] = s
+                r['storage'] = _ceil(_exact_request(s))
             if kind == 'mt':
                 m, cores, mem = rng.choice(machines[cloud])
                 r.update(machine_type=m, mt_cores=cores, mt_memory=mem)
@@ -346,6 +452,9 @@ def correspond(ctx):
     for (name, a), m, i in zip(calls, model, impl):
         hist[name] = hist.get(name, 0) + 1
         m = _norm_model(m)
+        if name == 'storage_str':     # [requested bytes, granted GiB]: exact re-reading + model  vs  real parser + real conversion
+            m = [_ceil(_exact_request(a[1])), m]
+            i = [i.get('bytes'), i.get('gib')]
         if m != i:
             dis.append(Disagreement(f'Gen.{name}~resource_utils', [name, a], m, i))
     # (c) select_inst_coll
@@ -369,8 +478,11 @@ def correspond(ctx):
                                     {'pools': sc['pools'], 'jpim_cloud': sc['jpim_cloud'], 'request': r, 'salt': sc['salt'], 'locations': sc['locations']}, m, i))
     return Corr(evaluations=sw['checked'] + len(calls) + len(exprs), distinct_nontrivial=len(distinct) + len(calls),
                 rule=f'adjust_cores_for_packability swept exhaustively over [-5, {hi}] against the least-packable specification; the real helpers vs '
-                     'the generated Gallina (boundaries of every packable count / GiB / cloud maximum + seeded random); select_inst_coll of the real '
-                     'class (generated pool configurations, prices from the real price function) vs the hand model',
+                     'the generated Gallina (boundaries of every packable count / cloud maximum; storage byte counts one byte / KiB / MiB either side '
+                     'of selected GiB boundaries, KiB- and MiB-multiples that are not GiB-multiples, decimal sizes, up to 2^53 - 1; storage request '
+                     'strings through the real parser vs their exact re-reading fed to the model; + seeded random); select_inst_coll of the real '
+                     'class (generated pool configurations, prices from the real price function, storage as bytes or as job-spec strings) vs the '
+                     'hand model',
                 samples=[{'request': meta[0][1], 'result': meta[0][2]['result']}] if meta else [], disagreements=dis,
                 histograms={'calls': hist}, exhaustive=False,
                 names=['least-packable-spec~adjust_cores_for_packability', 'Gen.helpers~resource_utils',
@@ -394,6 +506,8 @@ def _packables(limit):
 def _check_select(t, sc, r, got):
     """the property on one answer of the real select_inst_coll"""
     case = {'pools': sc['pools'], 'jpim_cloud': sc['jpim_cloud'], 'request': {k: v for k, v in r.items()}, 'salt': sc['salt'], 'locations': sc['locations']}
+    if isinstance(got, str) and got.startswith('storage-string-unparsed'):
+        return ('storage-string-unparsed', f'storage string {r.get("storage_str")!r} accepted by the job schema is not read as a byte count', case, r['storage'], got)
     if isinstance(got, str):
         return ('select-raises', f'select_inst_coll raised {got}', case, 'a placement or None', got)
     mx = t['max_storage_gib']
@@ -433,19 +547,80 @@ def _check_select(t, sc, r, got):
     return None
 
 
+def _is_int(x):
+    return isinstance(x, int) and not isinstance(x, bool)
+
+
+def _storage_want(t, cloud, need, allow):
+    """the least admissible grant (Model.storage_grant_ok, theorem C12_storage_grant_least) for `need` requested bytes (int or
+    Fraction), in exact arithmetic; None = above the cloud's largest disk"""
+    if need > t['max_storage_gib'][cloud] * GIB:
+        return None
+    if allow and need == 0:
+        return 0
+    return max(10, -((-_ceil(need)) // GIB))
+
+
+def _judge_storage(t, cloud, need, allow, got, case, under_key='storage-under'):
+    """the property on one storage grant of the real code (got = granted GiB or None), judged by value in exact integers"""
+    want = _storage_want(t, cloud, need, allow)
+    if got is None:
+        if want is not None:
+            return ('storage-rejected', 'storage within the cloud maximum rejected', case, f'{want} GiB', None)
+        return None
+    if not _is_int(got):
+        return ('helper-raises', f'storage grant is not a whole number of GiB: {got!r}', case, 'GiB', got)
+    if got * GIB < need:
+        return (under_key, f'granted storage {got} GiB = {got * GIB} bytes is below the {_ceil(need)} bytes requested', case,
+                f'>= {_ceil(need)} bytes' + (f' ({want} GiB)' if want is not None else ''), got * GIB)
+    if want is None or got > t['max_storage_gib'][cloud]:
+        return ('storage-over-max', 'storage above the cloud maximum accepted / granted', case, None, got)
+    if got < want:
+        return ('storage-below-minimum', f'granted {got} GiB, below the 10 GiB minimum disk the worker insists on (is_valid_storage_request)', case, want, got)
+    if got > want:
+        return ('storage-not-least', f'granted {got} GiB although {want} GiB is a whole number of GiB covering the request (and the 10 GiB minimum)', case, want, got)
+    return None
+
+
 def _check_helper(t, name, a, got):
     if isinstance(got, str):
         return ('helper-raises', f'{name}{a} raised {got}', [name, a], 'a value', got)
     if name == 'storage_gib':
         cloud, b, allow = a
-        if got is None:
-            if b <= t['max_storage_gib'][cloud] * GIB:
-                return ('storage-rejected', 'storage within the cloud maximum rejected', [name, a], 'GiB', None)
-            return None
+        return _judge_storage(t, cloud, b, allow, got, [name, a])
+    if name == 'round_gib':
+        # round_storage_bytes_to_gib: the LEAST whole number of GiB covering the bytes (theorem C12_storage_rounding_least)
+        b = a[0]
+        if not _is_int(got):
+            return ('helper-raises', f'round_storage_bytes_to_gib({b}) = {got!r} is not an int', [name, a], 'GiB', got)
         if got * GIB < b:
-            return ('storage-under', 'granted storage below the request', [name, a], f'>= {b}', got * GIB)
-        if b > t['max_storage_gib'][cloud] * GIB:
-            return ('storage-over-max', 'storage above the cloud maximum accepted', [name, a], None, got)
+            return ('storage-rounding-under', f'round_storage_bytes_to_gib({b}) = {got}: {got} GiB = {got * GIB} bytes do not cover {b} bytes',
+                    [name, a], -((-b) // GIB), got)
+        if (b == 0 and got != 0) or (b > 0 and (got - 1) * GIB >= b):
+            return ('storage-rounding-not-least', f'round_storage_bytes_to_gib({b}) = {got}: {got - 1} GiB already cover {b} bytes',
+                    [name, a], -((-b) // GIB), got)
+        return None
+    if name == 'storage_str':
+        # the storage path of a job spec: string -> bytes (front end) -> GiB (instance collection) -> accepted and turned into a disk quota (worker)
+        cloud, s, allow = a
+        need = _exact_request(s)
+        for k in ('bytes', 'gib', 'quota', 'valid'):
+            if isinstance(got.get(k), str):
+                return ('helper-raises', f'storage path of {s!r}: {k} raised {got[k]}', [name, a], 'a value', got[k])
+        if not _is_int(got['bytes']):
+            return ('storage-string-unparsed', f'storage string {s!r} accepted by the job schema is not read as a byte count', [name, a], _ceil(need), got['bytes'])
+        if got['bytes'] < need:
+            return ('storage-string-under', f'storage string {s!r} read as {got["bytes"]} bytes, below the {_ceil(need)} bytes it asks for', [name, a], _ceil(need), got['bytes'])
+        r = _judge_storage(t, cloud, need, allow, got['gib'], [name, a], under_key='storage-string-under')
+        if r:
+            return r
+        if got['gib'] is not None:
+            if got['valid'] is not True:
+                return ('storage-grant-invalid', f'the worker refuses the granted {got["gib"]} GiB (is_valid_storage_request)', [name, a], True, got['valid'])
+            if not _is_int(got['quota']) or got['quota'] < need or got['quota'] < got['gib'] * GIB:
+                return ('storage-quota-under', f'disk quota {got["quota"]} bytes for the granted {got["gib"]} GiB does not give the {_ceil(need)} bytes requested',
+                        [name, a], got['gib'] * GIB, got['quota'])
+        return None
     if name == 'adjust_mem':
         cloud, wt, c, m = a
         B = _mpc_of(t, cloud, wt) * MIB
@@ -464,12 +639,39 @@ def _check_helper(t, name, a, got):
     return None
 
 
+def _storage_sweep(ctx, t):
+    """the real rounding helpers around EVERY GiB boundary k * 2^30 of a dense range of k (0 .. 4096 quick / 16384 thorough), a stride
+    through the rest up to beyond the clouds' largest disks, and the special counts; judged here, by value, in exact integers"""
+    mx = max(t['max_storage_gib'].values())
+    ks = sorted(set(range(0, ctx.scale(4096, 16384) + 1)) | set(range(0, mx + 4, ctx.scale(257, 31))) | set(_storage_ks(t))
+                | {2 ** e + d for e in range(0, 18) for d in (-1, 0, 1)})
+    raw = ctx.run_impl('c12_resources.py', {'mode': 'storage_sweep', 'ks': ks, 'offsets': GIB_OFFSETS}, timeout=600)
+    bs = [k * GIB + off for k in ks for off in GIB_OFFSETS if k * GIB + off >= 0]
+    if raw['n'] != len(bs) or any(len(raw[c]) != len(bs) for c in ('round', 'gcp:1', 'gcp:0', 'azure:1', 'azure:0')):
+        raise RuntimeError('C12 storage sweep: result shape mismatch')
+    found, per_key = [], {}
+    for idx, b in enumerate(bs):
+        cands = [('round_gib', [b], raw['round'][idx])]
+        for cloud in ('gcp', 'azure'):
+            for allow in (True, False):
+                cands.append(('storage_gib', [cloud, b, allow], raw[f'{cloud}:{int(allow)}'][idx]))
+        for name, a, got in cands:
+            r = _check_helper(t, name, a, got)
+            if r and per_key.get(r[0], 0) < 3:
+                per_key[r[0]] = per_key.get(r[0], 0) + 1
+                found.append(r)
+    return found, 5 * len(bs), len(ks)
+
+
 def oracle(ctx, budget):
     t = _get_tables(ctx)
     fails = []
     sw = _sweep(ctx)
     for c, want, got in sw['bad']:
         fails.append(Failure('packability-not-least', f'adjust_cores_for_packability({c}) = {got}, least packable count is {want}', ['pack', [c]], want, got))
+    st_found, st_n, st_ks = _storage_sweep(ctx, t)
+    for r in st_found:
+        fails.append(Failure(r[0], r[1], r[2], r[3], r[4]))
     calls = _helper_calls(ctx, ctx.scale(200, 4000) * budget)
     impl = ctx.run_impl('c12_resources.py', {'mode': 'helpers', 'calls': calls}, timeout=600)['results']
     for (name, a), got in zip(calls, impl):
@@ -486,10 +688,18 @@ def oracle(ctx, budget):
             if x:
                 fails.append(Failure(x[0], x[1], x[2], x[3], x[4]))
     fails.sort(key=lambda f: len(json_key(f.case)))
-    return fails, {'evaluations': sw['checked'] + len(calls) + n, 'distinct_nontrivial': len(calls) + n,
-                   'rule': 'oracle on the real code: least packable count (exhaustive sweep), storage / memory adjustment cover the request in exact '
-                           'integer arithmetic, every answer of select_inst_coll grants >= request on a matching collection and fits, every rejection '
-                           'checked by brute force over all packable grants of all matching pools'}
+    n_str = sum(1 for name, _ in calls if name == 'storage_str')
+    return fails, {'evaluations': sw['checked'] + st_n + len(calls) + n, 'distinct_nontrivial': st_n + len(calls) + n,
+                   'rule': 'oracle on the real code: least packable count (exhaustive sweep); storage rounding swept around every GiB boundary of '
+                           f'{st_ks} GiB counts (one byte / KiB / MiB either side, KiB- and MiB-multiples that are not GiB-multiples) for '
+                           'round_storage_bytes_to_gib and requested_storage_bytes_to_actual_storage_gib of both clouds: granted GiB * 2^30 >= requested '
+                           'bytes, least such whole number (10 GiB minimum), refused only above the cloud maximum, all in exact integers; '
+                           f'{n_str} storage request STRINGS (fractional binary, decimal, byte counts) through the real parse_storage_in_bytes -> GiB '
+                           '-> is_valid_storage_request -> storage_gib_to_bytes, the request re-read independently as an exact rational; memory '
+                           'adjustment covers the request in exact integer arithmetic; every answer of select_inst_coll (storage also given as '
+                           'job-spec strings) grants >= request on a matching collection and fits, every rejection checked by brute force over all '
+                           'packable grants of all matching pools',
+                   'histograms': {'oracle_storage': {'sweep_evaluations': st_n, 'sweep_gib_counts': st_ks, 'request_strings': n_str}}}
 
 
 def replay(ctx, doc):
